@@ -165,9 +165,9 @@ end EPV.USet
 
 namespace EPV.USet
 
-/-- `UnicodeSubset(list)` constructor: `sorted(codepoints, key=code_point_order)` — stable sort by
-first code point, entries stored as given (no merging) -/
-def ofList (o : List CP) : List CP := o.mergeSort (fun a b => decide (a.lo ≤ b.lo))
+/-- `UnicodeSubset(list)` constructor (after the F13d repair): `list(iter_code_points(codepoints))` —
+the entries sorted by first code point and merged -/
+def ofList (o : List CP) : List CP := iterCodePoints false o
 
 /-- binary in-place operators with a plain iterable (list) right operand:
 `|=`/`-=` go through `iter_code_points(other, reverse=True)`, `&=` through `self - other`,
